@@ -23,7 +23,8 @@ class Harness:
         self.ctx = ctx
         self.interp = interp
         self.model = model
-        self.trace = []         # commands yielded (objects)
+        self.trace = []         # commands yielded unconditionally on this path (objects)
+        self.ctrace = []        # (condition, command): yields merged by if-conversion
         self.notes = []         # progress / sleep objects
         self.fault_budget = fault_budget
         self.faults = []        # (index in trace, kind)
@@ -59,10 +60,12 @@ class Harness:
             return ("garbled", v)
         return ans
 
-    def on_yield(self, x):
+    def on_yield(self, x, guard=None):
         if is_instance(x, (S.progress, S.sleep)) or not is_instance(x, C.Command):
             self.notes.append(x)
             return None
+        if guard is not None:
+            return self.on_guarded_yield(x, guard)
         if len(self.trace) >= self.max_yields:
             from .sym import Unsupported
             raise Unsupported("sequence yielded more than %d commands" % self.max_yields)
@@ -70,6 +73,31 @@ class Harness:
         ans = self.inject(x, ans)
         self.trace.append(x)
         return self.respond(x, ans)
+
+    def on_guarded_yield(self, x, guard):
+        """`if c: yield X` without forking: the unit's state becomes ite(c, state after X, state before)"""
+        from .spec import ite
+        if self.interp.get_attr(x, "response") is not None:
+            if self.interp.test(guard):
+                return self.on_yield(x)
+            return None
+        before = snapshot_model(self.model)
+        ans = self.model.step(x)
+        merge_model(self.model, before, guard)
+        self.ctrace.append((guard, x))
+        return None
+
+    def count(self, *classes):
+        """number of yielded commands of the given classes (symbolic when yields were conditional)"""
+        from .spec import ite
+        n = 0
+        for c in self.trace:
+            if type_of(c) in classes:
+                n = n + 1
+        for g, c in self.ctrace:
+            if type_of(c) in classes:
+                n = n + ite(g, 1, 0)
+        return n
 
     def run(self, fn, *args, **kwargs):
         """-> ("return", value) | ("raise", class, exception object)"""
@@ -101,3 +129,43 @@ class Harness:
             return ("raise", e.cls, e.value, e.where)
         except Exception as e:      # noqa: BLE001
             return ("raise", type(e), e, "native")
+
+
+def snapshot_model(m):
+    out = {}
+    for k, v in vars(m).items():
+        if isinstance(v, list):
+            out[k] = list(v)
+        elif isinstance(v, dict):
+            out[k] = dict(v)
+        else:
+            out[k] = v
+    return out
+
+
+def _merge_value(g, new, old, what):
+    from .spec import ite
+    from .sym import Unsupported, is_intlike
+    if new is old:
+        return old
+    if isinstance(new, (bool, sym.SBool)) and isinstance(old, (bool, sym.SBool)):
+        return ite(g, new, old)
+    if is_intlike(new) and is_intlike(old):
+        return ite(g, new, old)
+    if isinstance(new, list) and isinstance(old, list) and len(new) == len(old):
+        return [_merge_value(g, a, b, what) for a, b in zip(new, old)]
+    if isinstance(new, dict) and isinstance(old, dict) and set(new) == set(old):
+        return {k: _merge_value(g, new[k], old[k], what) for k in new}
+    try:
+        if new == old:
+            return old
+    except Exception:       # noqa: BLE001
+        pass
+    raise Unsupported("conditional update of unit-model field %s" % what)
+
+
+def merge_model(m, before, guard):
+    for k, v in list(vars(m).items()):
+        if k not in before:
+            raise sym.Unsupported("unit model gained field %s under a condition" % k)
+        setattr(m, k, _merge_value(guard, v, before[k], k))
